@@ -48,6 +48,9 @@ def main():
         pd = os.path.join(a.seeds, prop)
         if not os.path.isdir(pd):
             continue
+        if os.path.exists(os.path.join(pd, 'patch.diff')):      # flat layout: seeded/C05-1/
+            seeds.append((prop, prop.split('-')[0], pd))
+            continue
         for k in sorted(os.listdir(pd)):
             sd = os.path.join(pd, k)
             if os.path.exists(os.path.join(sd, 'patch.diff')):
@@ -77,6 +80,14 @@ def main():
                         print('      %s %s' % (p, l))
         summary[name] = {'detected_by': hit, 'analysis_error': err}
     json.dump(summary, open('/tmp/seedtest-summary.json', 'w'), indent=1)
+    if a.all and a.seeds == os.path.join(VERIF, 'seeded'):
+        for name, res in summary.items():
+            mp = os.path.join(a.seeds, name, 'meta.json')
+            if os.path.exists(mp):
+                m = json.load(open(mp))
+                m['detected_by'] = res['detected_by']
+                m['analysis_error_in'] = res['analysis_error']
+                json.dump(m, open(mp, 'w'), indent=1)
 
 
 if __name__ == '__main__':
